@@ -889,6 +889,13 @@ func runScenario(sc *Scenario) {
 	p0recv, p0send := counterVal(metrics.LabelBatchRecvLoop), counterVal(metrics.LabelBatchSendLoop)
 	sp0 := atomic.LoadInt64(&client.BatchSendLoopPanicCounter)
 	inj0 := injectedPanics.Load()
+	noconn0 := 0.0
+	{
+		m := &dto.Metric{}
+		if metrics.TiKVNoAvailableConnectionCounter.Write(m) == nil {
+			noconn0 = m.GetCounter().GetValue()
+		}
+	}
 	injr0 := injectedRecvPanics.Load()
 
 	t0 := time.Now()
@@ -1039,6 +1046,13 @@ func runScenario(sc *Scenario) {
 				if err := failpoint.Enable("tikvclient/mockBatchClientSendDelay", fmt.Sprintf("%d*panic(\"verif send loop panic\")", n)); err != nil {
 					ev("HARNESS\tfailpoint enable failed: %v", err)
 				}
+			case "senddelay":
+				// the repo's failpoint at the top of getClientAndSend with an int value: every batch is held for n ms
+				// before buildWithLimit, so the requests arriving meanwhile land in ONE later build
+				ev("INJ\tsenddelay\t%d", n)
+				if err := failpoint.Enable("tikvclient/mockBatchClientSendDelay", fmt.Sprintf("return(%d)", n)); err != nil {
+					ev("HARNESS\tfailpoint enable failed: %v", err)
+				}
 			case "recvfail":
 				in.recvFail[f.Host].Store(n)
 			case "sendfail":
@@ -1060,6 +1074,7 @@ func runScenario(sc *Scenario) {
 	}()
 	allDone := make(chan struct{})
 	go func() { wg.Wait(); close(allDone) }()
+	stopTicks := func() {}
 	if nLong > 0 {
 		// calls without a (short) deadline: once the last fault is over the server is healthy and answers
 		// everything it holds, so every such call must complete (answered, or failed by the stream error) within
@@ -1079,6 +1094,42 @@ func runScenario(sc *Scenario) {
 		}
 		longDone := make(chan struct{})
 		go func() { wgLong.Wait(); close(longDone) }()
+		failpoint.Disable("tikvclient/mockBatchClientSendDelay") // no more held batches while draining
+		if sc.Limit > 0 && os.Getenv("VERIF_C18_NOTICKS") == "" {
+			// with a finite concurrency limit the entries left in the builder are only looked at again when another
+			// request arrives: keep some background traffic going while the long calls drain
+			tickStop := make(chan struct{})
+			var tickWg sync.WaitGroup
+			tickWg.Add(1)
+			go func() {
+				defer tickWg.Done()
+				for k := 0; k < 400; k++ {
+					select {
+					case <-tickStop:
+						return
+					case <-time.After(10 * time.Millisecond):
+					}
+					c := len(sc.Callers) + k
+					// high priority: popped in the round it arrives in without using the quota, so it never competes with
+					// the queued normal requests (the priority queue is not FIFO among equal priorities)
+					cs := CallerSpec{Kind: 0, Pri: 16, TimeoutMs: 2000, CancelUs: -1}
+					ctx := context.WithValue(context.Background(), client.VerifCallerKey{}, int64(c))
+					evs(int64(sc.ID), "SUB\t%d\t0\t16\trawget\t2000\tsync\t0", c)
+					tickWg.Add(1)
+					go func() {
+						defer tickWg.Done()
+						resp, err := rpc.SendRequest(ctx, srvs[0].addr, mkReq(c, cs), 2*time.Second)
+						if err != nil {
+							evs(int64(sc.ID), "RET\t%d\t%s\t-1\t0\t0\t%s", c, errClass(err), firstN(strings.ReplaceAll(err.Error(), "\t", " "), 80))
+						} else {
+							p, _ := respPay(resp)
+							evs(int64(sc.ID), "RET\t%d\tok\t%d\t0\t0\t-", c, p)
+						}
+					}()
+				}
+			}()
+			stopTicks = func() { close(tickStop); tickWg.Wait() }
+		}
 		const drainWindow = 4 * time.Second
 		select {
 		case <-longDone:
@@ -1097,6 +1148,7 @@ func runScenario(sc *Scenario) {
 			}
 		}
 	}
+	stopTicks()
 	limit := time.Duration(25*maxTo)*time.Millisecond + 5*time.Second
 	select {
 	case <-allDone:
@@ -1126,6 +1178,12 @@ func runScenario(sc *Scenario) {
 			stable++
 		} else {
 			stable, last = 0, cur
+		}
+	}
+	{
+		m := &dto.Metric{}
+		if metrics.TiKVNoAvailableConnectionCounter.Write(m) == nil {
+			ev("STAT\tnoconn=%g", m.GetCounter().GetValue()-noconn0)
 		}
 	}
 	for k := len(ins) - 1; k >= 0; k-- { // store 0 last: its END line closes the scenario
@@ -1330,6 +1388,41 @@ func genScenario(r *rand.Rand, id int, class string) *Scenario {
 		}
 		sc.Callers = append(sc.Callers, CallerSpec{Host: a, Kind: r.Intn(4), TimeoutMs: normalTo, CancelUs: -1, StartUs: r.Int63n(3000), SlowMs: 400})
 		sc.Faults = append(sc.Faults, Fault{AtUs: 15000, Kind: "kill", Host: a}, Fault{AtUs: 30000, Kind: "kill", Host: 1 - a})
+	case "limitbatch": // a finite MaxConcurrencyRequestLimit and whole batches of mixed priorities built at once: the failpoint
+		// holds every batch before buildWithLimit, so the requests of a wave land in ONE build; high-priority (>= 10) and
+		// already cancelled entries use up the first Take without counting, more normal requests are queued than slots
+		// remain -> second Take round; most normal requests are long / no-deadline calls (must complete in the drain phase)
+		sc.NHosts = 1 + r.Intn(2)
+		sc.Limit = int64(1 + r.Intn(3))
+		sc.DelayUs, sc.Reorder = 200, 0
+		hold := 8 + r.Intn(10)
+		sc.Faults = append(sc.Faults, Fault{AtUs: 0, Kind: "senddelay", N: hold})
+		sc.Callers = append(sc.Callers, CallerSpec{Kind: 0, TimeoutMs: normalTo, CancelUs: -1, StartUs: 500}) // opens the first hold
+		waves := 1 + r.Intn(3)
+		for w := 0; w < waves; w++ {
+			base := int64(2000 + w*(hold+6)*1000)
+			nhi := r.Intn(3)
+			ncanc := r.Intn(3)
+			nnorm := int(sc.Limit) + 1 + r.Intn(4)
+			for i := 0; i < nhi; i++ {
+				sc.Callers = append(sc.Callers, CallerSpec{Host: r.Intn(sc.NHosts), Pri: []int{10, 12, 16}[r.Intn(3)], Kind: r.Intn(4), TimeoutMs: normalTo, CancelUs: -1, StartUs: base + r.Int63n(2000)})
+			}
+			for i := 0; i < ncanc; i++ { // gives up while it sits in the channel / builder
+				sc.Callers = append(sc.Callers, CallerSpec{Host: r.Intn(sc.NHosts), Pri: []int{0, 5, 12}[r.Intn(3)], Kind: r.Intn(4), TimeoutMs: normalTo, CancelUs: base + 2500 + r.Int63n(2000), StartUs: base + r.Int63n(2000)})
+			}
+			for i := 0; i < nnorm; i++ {
+				cs := CallerSpec{Host: r.Intn(sc.NHosts), Pri: []int{0, 0, 1, 9}[r.Intn(4)], Kind: r.Intn(4), TimeoutMs: normalTo, CancelUs: -1, StartUs: base + r.Int63n(2000), SlowMs: []int{0, 0, 30}[r.Intn(3)]}
+				switch r.Intn(4) {
+				case 0:
+					cs.Long = true
+				case 1, 2:
+					cs.Long, cs.Async = true, true
+				default:
+					cs.TimeoutMs = 300 // may be left in the builder until its time-out when nothing else arrives
+				}
+				sc.Callers = append(sc.Callers, cs)
+			}
+		}
 	case "builder": // the builder: mixed priorities (high ones bypass the limit), a small concurrency limit so that entries
 		// stay in the priority queue across rounds, callers that give up while still queued, forwarding buckets
 		sc.NHosts = 1 + r.Intn(3)
@@ -1343,6 +1436,10 @@ func genScenario(r *rand.Rand, id int, class string) *Scenario {
 			cs.Pri = []int{0, 0, 1, 5, 9, 10, 12, 16}[r.Intn(8)]
 			cs.StartUs = r.Int63n(8000)
 			cs.Async = r.Intn(4) == 0
+			if r.Intn(5) == 0 {
+				cs.Long = true
+				return
+			}
 			switch r.Intn(4) {
 			case 0:
 				cs.CancelUs = r.Int63n(6000) // often before the entry is built
@@ -1496,7 +1593,7 @@ func main() {
 	tier := os.Getenv("VERIF_TIER")
 	r := rand.New(rand.NewSource(seed*7919 + 17))
 	classes := []string{"plain", "forward", "streamfail", "cancel", "close", "staleepoch", "multiconn", "rebreak", "sendpanic", "staleasync",
-		"builder", "recvpanic", "failpanic", "twopools", "nonbatch", "asyncclose"}
+		"builder", "recvpanic", "failpanic", "twopools", "nonbatch", "asyncclose", "limitbatch"}
 	rounds := 8
 	if tier == "thorough" {
 		rounds = 100
